@@ -44,7 +44,8 @@ fn prims(eng: &str, seed: u64, count: usize) {
         if i % 3 == 2 {
             // mul
             let blocks = rng.range(1, 3);
-            let mut buf = vec![[0u8; 64]; blocks + 2];
+            // the slice ends where the allocation ends: an access beyond it is UB
+            let mut buf = vec![[0u8; 64]; blocks + 1];
             for b in buf.iter_mut() {
                 rng.fill(b);
             }
